@@ -572,6 +572,113 @@ def tie_and_boundary_probes(run, rng, thorough):
                               dict(cutoff=cutoff, classical=classical, frequencies_eV=fr.tolist(), temperatures=temps.tolist()))
 
 
+def kernel_shape_sweeps(run, rng, thorough, lib_ser, shim_omp, intensify):
+    """Thread sweeps of kernels on shapes from different regimes (few/many irreducible grid points x few/many bands,
+    large q batches), 16/8/4/1 threads + serial build, repeated, bitwise, and against the reference transcription.
+    `intensify` (a pragma of the inventory changed or is new) raises the repetitions: the inventory says that the
+    parallel structure changed, the sweep looks for an input on which that matters."""
+    import phonopy._phonopy as phonoc
+    from phonopy.structure import tetrahedron_method as TM
+    from phonopy.structure.grid_points import GridPoints
+
+    reps = 5 if intensify else 3
+    r = np.random.RandomState(rng.randint(0, 10**9))
+    rga = np.array(TM.TetrahedronMethod(None).tetrahedra, dtype="int64")
+    shapes = [([1, 1, 2], 12, 9), ([2, 2, 2], 24, 6), ([2, 1, 1], 40, 5), ([3, 3, 3], 3, 9), ([4, 4, 3], 12, 5)]
+    for mesh, nb, nf in shapes:
+        gp = GridPoints(np.array(mesh), np.eye(3), is_mesh_symmetry=False)
+        ga = np.array(gp.grid_address, dtype="int64")
+        gmt = np.array(gp.grid_mapping_table, dtype="int64")
+        nir = len(ga)
+        freqs = np.sort(r.uniform(0, 5, size=(nir, nb)), axis=1)
+        fpts = np.linspace(0.1, 4.9, nf)
+        coef = r.uniform(0.5, 1.5, size=(nir, 2, nb))
+        base = [np.array(mesh, dtype="int64"), fpts, freqs, coef, ga, gmt, rga]
+        outs = {}
+        for label, shim, t in [("omp-1", shim_omp, 1)] + [("omp-%d#%d" % (t, k), shim_omp, t) for t in (16, 8, 4, 2) for k in range(reps)] + [("ser", lib_ser, 1)]:
+            U.set_threads(t)
+            dos = np.zeros((nir, nb, nf, 2))
+            shim.call("tetrahedron_method_dos", dos, *[a.copy() for a in base])
+            outs[label] = dos
+            run.count("tetrahedron DOS shape-regime sweep runs", section="oracle")
+        info = dict(kernel="tetrahedron_method_dos", mesh=mesh, num_ir_grid_points=nir, num_band=nb, num_freq_points=nf, frequencies_seeded=True)
+        for label, dos in outs.items():
+            if not np.array_equal(dos, outs["omp-1"]):
+                run.violation("phonopy._phonopy.tetrahedron_method_dos", "thread-count-dependent" if label != "ser" else "build-dependent",
+                              "DOS weights (%d irreducible grid points x %d bands x %d frequency points) differ bitwise between 1 OpenMP thread and %s (max %.3g)" % (
+                                  nir, nb, nf, label, float(np.abs(dos - outs["omp-1"]).max())),
+                              dict(info, config=label, frequencies=freqs.tolist(), frequency_points=fpts.tolist(), coef=coef.tolist()))
+                break
+        run.case(("dos-sweep", tuple(mesh), nb, nf, freqs.tobytes()), nontrivial=True)
+        if nir * nb * nf <= 1300:
+            central = [int(np.nonzero((np.array(t_) == 0).all(axis=1))[0][0]) for t_ in rga]
+            tpx = TM.TetrahedronMethod(None, lang="Py")
+            tpx._relative_grid_addresses, tpx._central_indices = np.array(rga), central
+
+            def iwf(w, tet, tpx=tpx):
+                tpx.set_tetrahedra_omegas(tet)
+                tpx.run(w, value="I")
+                return tpx.get_integration_weight()
+            refd = ref.tetrahedron_method_dos([np.zeros((nir, nb, nf, 2))] + base, iwf)[0]
+            # the 16-thread result against the transcription
+            ok, dlt = _close(outs["omp-16#0"], refd)
+            run.count("tetrahedron DOS sweep vs transcription", section="oracle")
+            if not ok:
+                run.violation("phonopy._phonopy.tetrahedron_method_dos", "differs-from-reference", "DOS weights at 16 threads differ from the transcribed formula by %.3g" % dlt,
+                              dict(info, frequencies=freqs.tolist(), frequency_points=fpts.tolist(), coef=coef.tolist()))
+    # thermal properties: many q-points
+    temps = np.linspace(0, 500, 6)
+    fr = r.uniform(0.001, 0.05, size=(400, 9))
+    wts = r.randint(1, 5, size=400).astype("int64")
+    outs = {}
+    for label, shim, t in [("omp-1", shim_omp, 1)] + [("omp-%d#%d" % (t, k), shim_omp, t) for t in (16, 8, 3) for k in range(reps)] + [("ser", lib_ser, 1)]:
+        U.set_threads(t)
+        props = np.zeros((len(temps), 3))
+        shim.call("thermal_properties", props, temps.copy(), fr.copy(), wts.copy(), 0.0, 0)
+        outs[label] = props
+        run.count("thermal-properties sweep runs", section="oracle")
+    for label, props in outs.items():
+        if not np.array_equal(props, outs["omp-1"]):
+            run.violation("phonopy._phonopy.thermal_properties", "thread-count-dependent" if label != "ser" else "build-dependent",
+                          "thermal properties of 400 q-points differ bitwise between 1 OpenMP thread and %s" % label, dict(config=label, seeded=True))
+            break
+    U.set_threads(4)
+
+
+def batched_dynmats(run, rng, thorough, intensify):
+    """run_qpoints over large q batches (one kernel call) with Gonze-Lee and Wang NAC: 16/8 threads repeated vs 1 thread vs
+    the serial build, bitwise at the public level within the OpenMP build and to 1e-12 across builds."""
+    import phonopy
+
+    reps = 6 if intensify else 3
+    qs = np.array([[rng.randint(-8, 8) / 16.0 for _ in range(3)] for _ in range(64)] + [[0, 0, 0]])
+    for method in ("gonze", "wang"):
+        cell, _ = gen.make_cell(rng.choice(["nacl_prim", "zincblende_prim", "cscl"]))
+        res = {}
+        for label, variant, t in [("omp-1", "omp", 1)] + [("omp-%d#%d" % (t, k), "omp", t) for t in (16, 8) for k in range(reps)] + [("ser", "ser", 1)]:
+            if common._STATE.get("variant") != variant:
+                U.switch_build(variant)
+            U.set_threads(t)
+            if label in ("omp-1", "ser"):
+                ph = phonopy.Phonopy(cell, supercell_matrix=np.diag([2, 2, 1]), primitive_matrix="P", log_level=0)
+                ph.force_constants = gen.pair_fc(ph.supercell, 1.45 * nn_distance(ph.primitive))
+                ph.nac_params = {"born": np.array([np.eye(3) * 1.2, -np.eye(3) * 1.2]), "dielectric": np.eye(3) * 2.6, "factor": 14.4, "method": method}
+            ph.run_qpoints(qs, with_dynamical_matrices=True, nac_q_direction=[1, 0, 0])
+            res[label] = np.array(ph.get_qpoints_dict()["dynamical_matrices"])
+            run.count("batched dynamical-matrix runs (NAC %s)" % method, section="oracle")
+        info = dict(nac=method, cell=list(cell.symbols), supercell=[2, 2, 1], qpoints=qs.tolist())
+        for label, dm in res.items():
+            if label == "ser":
+                if np.abs(dm - res["omp-1"]).max() > 1e-12 * max(1.0, float(np.abs(dm).max())):
+                    run.violation("Phonopy.run_qpoints", "build-dependent", "batched dynamical matrices (NAC %s) differ between the OpenMP and the serial build by %.3g" % (method, float(np.abs(dm - res["omp-1"]).max())), info)
+            elif not np.array_equal(dm, res["omp-1"]):
+                run.violation("Phonopy.run_qpoints", "thread-count-dependent", "dynamical matrices of a 65-q-point batch (NAC %s) differ bitwise between 1 OpenMP thread and %s (max %.3g)" % (method, label, float(np.abs(dm - res["omp-1"]).max())), dict(info, config=label))
+                break
+        run.case(("dm-batch", method, qs.tobytes()), nontrivial=True)
+    U.switch_build("omp")
+    U.set_threads(4)
+
+
 def nac_lowsym_probes(run, rng, thorough):
     """Low-symmetry (P1) cell with random NON-symmetric Born tensors (sum rule imposed) and a symmetric dielectric tensor:
     derivative of the dynamical matrix C vs `_run_py` (Wang and Gonze-Lee objects), Wang dynamical matrix C vs the
@@ -683,6 +790,14 @@ def main(run):
 
     inv = pragmas.inventory(common.REPO)
     keys = [pragmas.key(r) for r in inv]
+    # the inventory the model records (text of Model/KernelFootprint.lean; the driver's answer is compared at the end):
+    # a pragma whose clauses / loop / writer callees changed, or a new one, steers the failing-input search
+    mtxt = open(os.path.join(common.LEAN_DIR, "PhononModel", "Model", "KernelFootprint.lean")).read()
+    mtxt = mtxt[mtxt.index("def inventory"):mtxt.index("def mallocInventory")] if "def mallocInventory" in mtxt and mtxt.index("def mallocInventory") > mtxt.index("def inventory") else mtxt[mtxt.index("def inventory"):]
+    model_keys_early = re.findall(r'^\s*"(c/[^"]*)"', mtxt, re.M)
+    changed_pragmas = sorted(set(keys) ^ set(model_keys_early))
+    intensify = bool(changed_pragmas)
+    run.cov["correspondence"]["pragmas_changed_vs_model"] = [k_.split("|")[1] for k_ in changed_pragmas]
     run.cov["correspondence"]["pragmas_found"] = len(inv)
     run.cov["correspondence"]["private_complete"] = sum(1 for r in inv if r.get("private_complete"))
     for r in inv:
@@ -752,7 +867,12 @@ def main(run):
     run.cov["timing_s"]["large_smallest_vectors"] = round(_time.time() - _t, 1); _t = _time.time()
     shim_omp = common._STATE["shim"]
     tie_and_boundary_probes(run, rng, thorough)
-    run.cov["timing_s"]["tie_and_boundary_probes"] = round(_time.time() - _t, 1)
+    run.cov["timing_s"]["tie_and_boundary_probes"] = round(_time.time() - _t, 1); _t = _time.time()
+    kernel_shape_sweeps(run, rng, thorough, lib_ser, shim_omp, intensify)
+    run.cov["timing_s"]["kernel_shape_sweeps"] = round(_time.time() - _t, 1); _t = _time.time()
+    batched_dynmats(run, rng, thorough, intensify)
+    shim_omp = common._STATE["shim"]
+    run.cov["timing_s"]["batched_dynmats"] = round(_time.time() - _t, 1)
     # ---- NAC kernels with non-symmetric Born tensors (captured as well)
     shim_omp.trace = cap
     nac_lowsym_probes(run, rng, thorough)
@@ -850,10 +970,10 @@ def main(run):
         r0 = U.replay(shim_omp, name, args, 0)
         r1 = U.replay(shim_omp, name, args, 1)
         h0 = U.out_bytes(r0)
-        ts = U.THREADS_ALL if (thorough or per_kernel[name] <= 3) else [1, 16]
+        ts = U.THREADS_ALL if (thorough or intensify or per_kernel[name] <= 3) else [1, 16]
         for t in ts:
             U.set_threads(t)
-            for rep in range(2 if t in (3, 16) else 1):
+            for rep in range((4 if t > 1 else 1) if intensify else (2 if t in (3, 16) else 1)):
                 rt = U.replay(shim_omp, name, args, 0)
                 run.count("kernel-replays", section="oracle")
                 if U.out_bytes(rt) != h0:
